@@ -25,6 +25,7 @@ mod p_snippet;
 mod p_sketch;
 mod p_text;
 mod s_lock;
+mod x_capsule;
 mod s_wal;
 mod x_crash;
 
@@ -90,6 +91,7 @@ fn main() {
         "C42" => h_c01::run_c42(tier, replay),
         "C27" => h_cards::run(tier, replay),
         "C28" => h_c01::run_c28(tier, replay),
+        "C29" => x_capsule::run(tier, replay),
         "C30" => p_codec::run_c30(tier, replay),
         "C31" => p_codec::run_c31(tier, replay),
         "C32" => p_query::run(tier, replay),
